@@ -687,6 +687,9 @@ struct Dims {
     token_aware: Vec<bool>,
     lwt: Vec<Lwt>,
     all_tokens: bool,
+    /// additionally this many seeded random {disabled,down,up} assignments (a SAMPLED dimension, used
+    /// only for the larger pinned cluster where 3^n is out of reach)
+    random_states: usize,
 }
 
 struct TabletDims {
@@ -714,7 +717,13 @@ fn run_cluster(env: &Env, c: &Concrete, absent_dc: &str, topo_rank: u64, legs: &
     let mut tally = Tally::default();
     let mut sub: u64 = 0;
     for dims in legs {
-        let states_list = if dims.all_states { all_states(n) } else { few_states(n) };
+        let mut states_list = if dims.all_states { all_states(n) } else { few_states(n) };
+        if dims.random_states > 0 {
+            let mut rng = vcore::Rng::new(0xC05 ^ topo_rank);
+            for _ in 0..dims.random_states {
+                states_list.push((0..n).map(|_| [NodeState::Up, NodeState::Up, NodeState::Down, NodeState::Disabled][rng.below(4) as usize]).collect());
+            }
+        }
         let tokens: Vec<i64> = if dims.all_tokens && n <= 4 || cl.space.tokens.len() <= 2 { cl.space.tokens.clone() } else { vec![cl.space.tokens[0], cl.space.tokens[cl.space.tokens.len() / 2], *cl.space.tokens.last().unwrap()] };
         // policies are independent of node states: build them once
         let mut policies: Vec<(PolicyCfg, Arc<dyn LoadBalancingPolicy>, NodeLocationPreference)> = Vec::new();
@@ -920,8 +929,8 @@ fn main() {
     let topos = if thorough { c05_topologies(5, 4, 3, 4) } else { c05_topologies(4, 3, 2, 3) };
     // leg "structure": every node-state assignment x preference x failover x {plain, LWT flag} on token-aware policies
     // leg "config":    a few node-state assignments x every policy switch x every LWT kind
-    let structure = Dims { all_states: true, inherited: vec![false], shuffle: vec![true], token_aware: vec![true], lwt: vec![Lwt::Neither, Lwt::Flag], all_tokens: thorough };
-    let config = Dims { all_states: false, inherited: vec![false, true], shuffle: vec![true, false], token_aware: vec![true, false], lwt: Lwt::ALL.to_vec(), all_tokens: thorough };
+    let structure = Dims { all_states: true, inherited: vec![false], shuffle: vec![true], token_aware: vec![true], lwt: vec![Lwt::Neither, Lwt::Flag], all_tokens: thorough, random_states: 0 };
+    let config = Dims { all_states: false, inherited: vec![false, true], shuffle: vec![true, false], token_aware: vec![true, false], lwt: Lwt::ALL.to_vec(), all_tokens: thorough, random_states: 0 };
     let legs = [structure, config];
     let tablet_dims = TabletDims { all_states_upto_nodes: if thorough { 4 } else { 3 }, boundary_tokens: thorough };
     if r.args.has_flag("--count") {
@@ -984,6 +993,19 @@ fn main() {
     vcore::par::for_each(r.args.jobs, 1, order.into_iter(), |i| {
         run_cluster(env_ref, &clusters_ref[i], names.absent_dc, i as u64, legs_ref, Some(&tablet_dims));
     });
+    // the repo's own 7-node, 2-DC, vnode test cluster: every preference x failover x {plain, LWT} x every
+    // strategy of the family x every ring interval, under the few_states assignments plus seeded random ones (SAMPLED)
+    {
+        let pinned = cqlref::placement::pinned_seven_node_ring();
+        let mut nodes: Vec<topo::CNode> = pinned.nodes.iter().map(|n| topo::CNode { dc: n.dc.clone(), rack: n.rack.clone(), tokens: vec![] }).collect();
+        for (t, n) in &pinned.entries {
+            nodes[*n].tokens.push(*t);
+        }
+        let before = r.evaluations.load(std::sync::atomic::Ordering::Relaxed);
+        let dims = Dims { all_states: false, inherited: vec![false], shuffle: vec![true], token_aware: vec![true], lwt: vec![Lwt::Neither, Lwt::Flag], all_tokens: true, random_states: if thorough { 400 } else { 40 } };
+        run_cluster(&env, &Concrete { nodes }, "unknown", u32::MAX as u64, &[dims], Some(&TabletDims { all_states_upto_nodes: 0, boundary_tokens: false }));
+        r.counters.add("plans_on_the_pinned_seven_node_cluster", r.evaluations.load(std::sync::atomic::Ordering::Relaxed) - before);
+    }
     sink.flush(&r);
     let sigs = env.signatures.lock().unwrap().clone();
     r.counters.add("topologies", topos.len() as u64);
@@ -994,7 +1016,7 @@ fn main() {
         *by_len.entry(s.len()).or_default() += 1;
     }
     r.note("distinct_signatures_by_plan_length", json!(by_len.iter().map(|(k, v)| (k.to_string(), *v)).collect::<BTreeMap<String, u64>>()));
-    r.set_rule("E-ENUM. evaluations = plans = (topology, node-state assignment, policy configuration, request) cases; each: Plan::new(..) to exhaustion (LWT-routed ones constructed repeatedly), fallback() alone, pick() alone, judged by the set/group oracle. Leg structure: ALL {disabled,down,up}^n x every preference (none, each DC, each DC+rack incl. a non-existent rack, a DC absent from the ring) x failover on/off x {plain, LWT} x requests {no token, token without table, unknown keyspace, every strategy of the family x query tokens} on token-aware policies. Leg config: {all up, all down, all disabled, each single node down / disabled} x the same preferences x failover x inherited/own preference x shuffle on/off x token-aware on/off x 5 LWT kinds. Group letters: R/L/M live replica in preferred rack / preferred DC / remote, r/l/m live non-replica, d down. distinct_nontrivial = plans with >= 3 targets from >= 2 groups.");
+    r.set_rule("E-ENUM. evaluations = plans = (topology, node-state assignment, policy configuration, request) cases; each: Plan::new(..) to exhaustion (LWT-routed ones constructed repeatedly), fallback() alone, pick() alone, judged by the set/group oracle. Leg structure: ALL {disabled,down,up}^n x every preference (none, each DC, each DC+rack incl. a non-existent rack, a DC absent from the ring) x failover on/off x {plain, LWT} x requests {no token, token without table, unknown keyspace, every strategy of the family x query tokens} on token-aware policies. Leg config: {all up, all down, all disabled, each single node down / disabled} x the same preferences x failover x inherited/own preference x shuffle on/off x token-aware on/off x 5 LWT kinds. Group letters: R/L/M live replica in preferred rack / preferred DC / remote, r/l/m live non-replica, d down. Plus the repo's pinned 7-node cluster under few + seeded random (SAMPLED) node-state assignments. distinct_nontrivial = plans with >= 3 targets from >= 2 groups.");
     r.set_exhaustive(true);
     r.assume("the driver's thread RNG (round-robin rotation, replica shuffle, random first replica) is not owned: SAMPLED dimension, every assertion is a set/group property that holds for each of its answers; LWT replica order is asserted exactly because it must not depend on it");
     r.assume("nodes have no sharder (no connection), so every target's shard is 0 / unspecified: 'named twice' = same node twice; fallback() is additionally checked under the plan's own target equality");
